@@ -14,7 +14,7 @@ ID = "C20"
 LEVEL = "exploration"
 TECHNIQUE = "Hypothesis-generated prediction matrices / id arrays / posterior samples compared with direct loop-based recomputations of every metric"
 RULE = (
-    "prediction matrices (1..12 experiments x 1..9 samples) of finite floats with chain labellings of unequal chain lengths or one chain, unicode sample names; evaluations of production size (200..2049 experiments x 30..300 samples, fixed 700x300, 1025x64, 65537x1, 3x65537; thorough also 4100x257, 70001x16) against exactly summed definitions; "
+    "prediction matrices (1..12 experiments x 1..9 samples) of finite floats with chain labellings of unequal chain lengths or one chain (labels 0-based, 1-based, with gaps or negative; columns grouped by chain or interleaved), unicode sample names; evaluations of production size (200..2049 experiments x 30..300 samples, fixed 700x300, 1025x64, 65537x1, 3x65537; thorough also 4100x257, 70001x16) against exactly summed definitions; "
     "id arrays of arity 2 and 3 with repeated single-agent measurements, control in any column and missing single-agent measurements; synergy on arity 2 with "
     ">=1 non-control per row, strict on/off; similarity matrix for 2..4 samples and 2..5 mapping entries with additive posterior samples. Non-trivial = unequal "
     "chain lengths, a repeated single-agent measurement, or a missing one, or a production-size evaluation. distinct = distinct case JSON."
@@ -42,6 +42,12 @@ def _evaluation(draw):
     t = draw(st.integers(1, 9))
     n_ch = draw(st.integers(1, min(3, t)))
     chains = sorted(draw(st.lists(st.integers(0, n_ch - 1), min_size=t, max_size=t)))
+    # chain labels are arbitrary integers: 1-based, with gaps, negative; now and then the columns are not grouped by chain
+    relabel = draw(st.sampled_from([None, None, [1, 2, 3], [0, 2, 5], [-1, 0, 1], [-2, 3, 1], [7, -1, 4]]))
+    if relabel:
+        chains = [relabel[c] for c in chains]
+    if draw(st.integers(0, 3)) == 0:
+        chains = draw(st.permutations(chains))
     return {
         "kind": "evaluation",
         "pred": [[draw(_f) for _ in range(t)] for _ in range(e)],
